@@ -1,4 +1,5 @@
 import Driver.Bloom
+import Driver.Hexane
 import Driver.Serde
 import Driver.Sync
 import Driver.Crdt
@@ -15,6 +16,7 @@ def dispatch (toks : List String) : List String :=
   | cmd :: _ =>
     match (cmd.splitOn ".").head? with
     | some "bloom" => Driver.Bloom.exec toks
+    | some "hexane" => Driver.Hexane.exec toks
     | some "serde" => Driver.Serde.exec toks
     | some "sync" => Driver.Sync.exec toks
     | _ => ["unknown-engine"]
